@@ -354,8 +354,8 @@ def limit():
 def run(cmd, timeout, cwd=None):
     t = time.time()
     try:
-        p = subprocess.run(cmd, capture_output=True, text=True, timeout=timeout, cwd=cwd, preexec_fn=limit)
-        return p.returncode, p.stdout, p.stderr, time.time() - t
+        p = subprocess.run(cmd, capture_output=True, timeout=timeout, cwd=cwd, preexec_fn=limit)
+        return p.returncode, p.stdout.decode('utf-8', 'replace'), p.stderr.decode('utf-8', 'replace'), time.time() - t
     except subprocess.TimeoutExpired as ex:
         return -9, (ex.stdout or b'').decode(errors='replace') if isinstance(ex.stdout, bytes) else (ex.stdout or ''), 'TIMEOUT', time.time() - t
 
